@@ -75,8 +75,23 @@ def h_written_hdf5_is_valid(nr, nc, typ):
     t, a = make_table(nr, nc, md=md, zeros=1, type_=typ)
     store = new_store()
     t.to_hdf5(store, 'verif', creation_date=DATE)
-    r, e = call(lambda: _validator()._validate_hdf5(table=store, format_version='2.1'))
-    sig = dict(type=typ)
+    via = pick(['_validate_hdf5', 'run'], 'entry')
+    if via == 'run':
+        import contextlib
+        import sx.env as env
+        TV = env.module('biom.cli.table_validator')
+
+        @contextlib.contextmanager
+        def fake_open(fp, permission='r'):
+            yield store
+        TV.biom_open = fake_open
+        TV.is_hdf5_file = lambda fp: True
+        r, e = call(lambda: TV._validate_table('table.biom', pick([None, '2.1', '2.1.0'], 'format-version')))
+        if e is None:
+            r = {'valid_table': r[0], 'report_lines': r[1]}
+    else:
+        r, e = call(lambda: _validator()._validate_hdf5(table=store, format_version='2.1'))
+    sig = dict(type=typ, entry=via)
     if e is not None:
         fail('hdf5:validator-raised', f"{type(e).__name__}: {e}"[:160], **sig)
     elif not r['valid_table']:
